@@ -79,10 +79,12 @@ class ProxyHandler(RequestHandler):
 
         # Create client for upstream requests
         # Disable TOFU - proxy acts as transparent relay, not validator
+        # Bodies are relayed as the raw bytes received, whatever their charset
         self._client = GeminiClient(
             timeout=timeout,
             verify_ssl=False,
             trust_on_first_use=False,
+            decode_body=False,
         )
 
         logger.debug(
@@ -162,6 +164,16 @@ class ProxyHandler(RequestHandler):
                 upstream_url,
                 response.status,
             )
+
+            # A meta that is not a single line of at most 1024 bytes cannot be
+            # relayed unchanged: the upstream response is malformed
+            meta = response.meta
+            if "\r" in meta or "\n" in meta or len(meta.encode("utf-8")) > 1024:
+                logger.warning("Upstream sent a malformed header: %s", upstream_url)
+                return GeminiResponse(
+                    status=StatusCode.PROXY_ERROR.value,
+                    meta="Upstream sent a malformed response",
+                )
 
             # Pass through the response as-is
             return response
